@@ -719,7 +719,20 @@ class CallMixin:
             es = sort_of(recv.ty.args[0])
             n = s.llen(recv.z)
             old_arr = s.larr(recv.z, es)
-            new_arr = z3.Store(old_arr, n, self.coerce(v, recv.ty.args[0], s).z)
+            vz = self.coerce(v, recv.ty.args[0], s).z
+            if self.c.ghost.get('append_named'):
+                # the new content is a named array (not a Store term): its defining facts contain the ground term app[n], which
+                # existential goals about membership need as an instantiation candidate
+                new_arr = fresh('app', z3.ArraySort(I, es))
+                i_ = z3.Int('i!app')
+                s.assume(z3.Select(new_arr, n) == vz,
+                         z3.ForAll([i_], z3.Implies(z3.And(0 <= i_, i_ < n), z3.Select(new_arr, i_) == z3.Select(old_arr, i_)), patterns=[z3.Select(new_arr, i_)]))
+                try:
+                    s.assume(z3.ForAll([i_], z3.Implies(z3.And(0 <= i_, i_ < n), z3.Select(new_arr, i_) == z3.Select(old_arr, i_)), patterns=[z3.Select(old_arr, i_)]))
+                except z3.Z3Exception:
+                    pass
+            else:
+                new_arr = z3.Store(old_arr, n, vz)
             s.lset(recv.z, es, new_arr, n + 1)
             self.seq_lemmas(SeqV(recv.ty.args[0], new_arr, n + 1), SeqV(recv.ty.args[0], old_arr, n), n, s)
             yield SV(NONE, NONEV), s
